@@ -246,11 +246,14 @@ def isolated(fn, args=(), timeout=120.0):
     return val
 
 
-RUN_TIMEOUT = float(os.environ.get("VERIF_RUN_TIMEOUT_S", "120"))
+def run_timeout() -> float:
+    """Wall-clock allowance of one run (a hang is killed by the parent and reported as a harness error, exit 2)."""
+    default = "900" if os.environ.get("VERIF_TIER_EFFECTIVE") == "thorough" else "150"
+    return float(os.environ.get("VERIF_RUN_TIMEOUT_S", default))
 
 
 def run_once(machine, plan, prop, keep_trace=False, timeout=None):
-    timeout = timeout or RUN_TIMEOUT
+    timeout = timeout or run_timeout()
     if getattr(machine, "needs_refserver", False):
         from . import refserver
 
